@@ -100,7 +100,7 @@ pub fn run(ctx: &Ctx) -> ! {
     cfg.gen.naming_devs = false;
     cfg.wide_args = true;
     cfg.args_cap_per_var = 7;
-    cfg.max_arg_maps = ctx.tier.pick(14, 14);
+    cfg.max_arg_maps = ctx.tier.pick(7, 14);
     let s1 = corpus::drive(ctx, &uni, &cfg, &|_| {}, &per_case, &|_, _| {});
     // (2) two-edge structures + one or two filter / tag / count deviations
     let sm = &uni.world.schema;
@@ -111,7 +111,7 @@ pub fn run(ctx: &Ctx) -> ! {
     cfg2.gen = qgen::GenCfg { allow: Some(vec!["Pt", "Pf", "Fct", "Fcf", "Fco", "C"]), wide_filters: true, naming_devs: false, ..Default::default() };
     cfg2.wide_args = true;
     cfg2.args_cap_per_var = 7;
-    cfg2.max_arg_maps = 7;
+    cfg2.max_arg_maps = ctx.tier.pick(4, 7);
     let s2 = if ctx.elapsed() < ctx.budget_s() { Some(corpus::drive(ctx, &uni, &cfg2, &|_| {}, &per_case, &|_, _| {})) } else { None };
 
     let mut c = cov();
